@@ -244,6 +244,10 @@ func (s *Solver) oneShot(conds []*Term, wantModel bool, timeout time.Duration) (
 			script += sb.String()
 		}
 	}
+	if d := os.Getenv("GOSYM_DUMP_ONESHOT"); d != "" {
+		os.MkdirAll(d, 0o755)
+		os.WriteFile(fmt.Sprintf("%s/q%d-%d.smt2", d, os.Getpid(), s.Stats.Retries), []byte(script), 0o644)
+	}
 	f, err := os.CreateTemp("", "gosym-oneshot-*.smt2")
 	if err != nil {
 		return Unknown, nil
